@@ -118,34 +118,43 @@ theorem frame_recycleLoop (bufs : List (Buf × Bool)) :
             refine Frame.trans ?_ this
             constructor <;> rfl
 
-theorem frame_recycle (q : Q) (head : Nat) (ins outs : List Buf) (r : Q × List Ev)
-    (h : recycle q head ins outs = some r) : Frame q r.1 := by
-  unfold recycle at h
-  simp only at h
+theorem frame_recycleIndirect (q0 : Q) (head orig : Nat) (ins outs : List Buf) (r : Q × List Ev)
+    (h : recycleIndirect q0 head orig ins outs = some r) : Frame q0 r.1 := by
+  unfold recycleIndirect at h
   split at h
   · simp at h
   · split at h
+    · simp at h
     · split at h
       · simp at h
       · split at h
         · simp at h
-        · split at h
-          · simp at h
-          · split at h
-            · simp at h
-            · simp at h
-              rw [← h]
-              constructor <;> rfl
-    · split at h
-      · simp at h
-      · rename_i q1 next evs hl
-        have f := frame_recycleLoop _ _ _ _ _ _ hl
-        split at h
-        · simp at h
         · simp at h
           rw [← h]
-          refine Frame.trans ?_ f
           constructor <;> rfl
+
+theorem frame_recycleDirect (q0 : Q) (head orig : Nat) (ins outs : List Buf) (r : Q × List Ev)
+    (h : recycleDirect q0 head orig ins outs = some r) : Frame q0 r.1 := by
+  unfold recycleDirect at h
+  split at h
+  · simp at h
+  · rename_i q1 next evs hl
+    have f := frame_recycleLoop _ _ _ _ _ _ hl
+    split at h
+    · simp at h
+    · simp at h
+      rw [← h]
+      exact f
+
+theorem frame_recycle (q : Q) (head : Nat) (ins outs : List Buf) (r : Q × List Ev)
+    (h : recycle q head ins outs = some r) : Frame q r.1 := by
+  unfold recycle at h
+  split at h
+  · simp at h
+  · have f0 : Frame q { q with freeHead := head } := by constructor <;> rfl
+    split at h
+    · exact Frame.trans f0 (frame_recycleIndirect _ _ _ _ _ _ h)
+    · exact Frame.trans f0 (frame_recycleDirect _ _ _ _ _ _ h)
 
 theorem frame_buildChain (q : Q) (ins outs : List Buf) (r : Q × Chain × List Ev)
     (h : buildChain q ins outs = some r) : Frame q r.1 := by
